@@ -62,4 +62,13 @@ def chunkLen (start stop : Int) : Nat := (stop - start).toNat
 def compact {α} (mask : List Bool) (xs : List α) : List α :=
   ((mask.zip xs).filter (fun p => p.1)).map (fun p => p.2)
 
+/-- Positions of the true cells of a mask, counted from `i`, in increasing order. -/
+def trueIdxFrom (i : Nat) : List Bool → List Nat
+  | [] => []
+  | b :: m => if b then i :: trueIdxFrom (i + 1) m else trueIdxFrom (i + 1) m
+
+/-- Positions of the true cells of a mask, in increasing order: entry `j` is the position of the
+`j`-th true cell (the documentation of `pad_masked_sequence`: `x_[j] = x[i]` for the `j`-th true `i`). -/
+def trueIdx (mask : List Bool) : List Nat := trueIdxFrom 0 mask
+
 end PdtVerif.PadSlice
